@@ -134,6 +134,15 @@ def errors(R, ctx):
     lib = ctx.lib
     R.rule(rid, "in try_inline_call every `Err(..)` arm pushes the error onto self.errors; RequirePathProcessor::apply returns Ok only on the "
                 "`errors.len() == 0` arm; the bundler error reaches Worker::bundle's `?`")
+    # the error list = the field of the processor whose length decides the result of apply (found by role, not by name)
+    err_fields = set()
+    ap = lib.fn(RPP + "::apply")
+    if ap is not None:
+        apa = ctx.an.fa(ap["path"])
+        for c in thir.calls(ap):
+            if c.get("fname") in ("len", "is_empty") and c["args"]:
+                err_fields |= {o[1] for o in apa.origins(c["args"][0]) if o[0] == RPP}
+    R.require(rid, "anchor:error-list", len(err_fields) >= 1, ctx.where(ap) if ap else "", "field(s) of the processor whose length decides apply's result: %s" % sorted(err_fields))
     fn = lib.fn(RPP + "::try_inline_call")
     if R.require(rid, "anchor:try_inline_call", fn is not None, "", "not found"):
         a = ctx.an.fa(fn["path"])
@@ -144,7 +153,7 @@ def errors(R, ctx):
             for arm in m["arms"]:
                 if any(v == "Err" and adt.endswith("Result") for adt, v in thir.pat_variants(arm["pat"])):
                     n += 1
-                    pushed = any(c.get("k") == "Call" and c.get("fname") == "push" and any(x[1] == "errors" for x in a.origins(c["args"][0]) if x[0] != "#param")
+                    pushed = any(c.get("k") == "Call" and c.get("fname") == "push" and any(x[1] in err_fields for x in a.origins(c["args"][0]) if x[0] == RPP)
                                  for c in thir.walk(arm["body"]))
                     R.ob(rid, "try_inline_call|err-arm-recorded@%d" % n, pushed, ctx.where(fn, arm.get("l")), "error pushed onto self.errors: %s" % pushed)
         R.require(rid, "try_inline_call|floor", n >= 1, ctx.where(fn), "%d Err arms" % n)
